@@ -658,7 +658,8 @@ Lemma get_cmc_inj : forall cs sz v x y z x' y' z' id,
   (x, y, z) = (x', y', z').
 Proof.
   intros cs sz v x y z x' y' z' id Hv H1 H2.
-  rewrite (get_cmc_total_spec cs sz v _ _ _ Hv) in H1, H2.
+  rewrite (get_cmc_total_spec cs sz v _ _ _ Hv) in H1.
+  rewrite (get_cmc_total_spec cs sz v _ _ _ Hv) in H2.
   destruct (mk_vspec_inv _ _ _ Hv) as (c & g0 & g1 & g2 & Hc & -> & Hsum).
   destruct (on_lattice_in_grid _ x y z) eqn:E1; [|discriminate].
   destruct (on_lattice_in_grid _ x' y' z') eqn:E2; [|discriminate].
